@@ -15,7 +15,7 @@ EXPLANATION = (
     "templates) are intersected as regular languages; an overlap is accepted only where a renaming guard covers it. NAMES: every Problem builder "
     "chain ends in create_unique_formula_names (index-prefixed names), empty / underscore names are repaired, generated names cannot equal "
     "preamble names. ONE-CONJECTURE: decomposition yields axioms + exactly one conjecture; outline problems are built from axiom-role formulas plus "
-    "one conjecture. PRE-1: the preamble parses, type-checks, declares every identifier once and contains no brace. IDENT: function constants, predicates, variables are set elements by all their fields (derived equality / hashing / ordering).")
+    "one conjecture. PRE-1: the preamble parses, type-checks, declares every identifier once and contains no brace. IDENT: function constants, predicates, variables are set elements by all their fields (derived equality / hashing / ordering). SHARED: every built-in identifier the printer can emit is declared in the preamble (C06 PRE-1).")
 UNDECIDED = ["type-correctness of arbitrarily nested terms beyond declared = used arity/sort (covered per construct by C06's dispatch tables)",
              "closedness of the formulas reaching a problem (assumed by the property)"]
 ASSUMPTIONS = ["TPTP TFF: one declaration per identifier; formula names form their own namespace"]
